@@ -177,7 +177,7 @@ class Inst:
         kw = {} if job["aliaser"] == "camel" else {"aliaser": self.al}
         self.schema = mod.graphql_schema(
             query=[mod.item, mod.items, mod.find, mod.put, mod.Query(mod.half, error_handler=mod.half_handler, parameters_metadata={"n": mod.alias("num_val")}), mod.shop, mod.employee, mod.named, mod.pet, mod.pets],
-            types=[mod.Shop, mod.Employee],
+            types=[mod.Shop, mod.Plain, mod.Employee],
             **kw,
         )
         self.ser_item = serialization_method(
@@ -252,6 +252,21 @@ class Inst:
         from apischema import serialization_method
 
         ns = self.ns
+        if ctx.flag("interface"):
+            # a value returned through an interface resolves to its own object type
+            which = ctx.pick(["Shop", "Plain", "Employee"], "cls")
+            v = ns[which](ctx.str("n", 1))
+            ns["CUR"][0] = v
+            ctx.witness = v
+            ctx.run_phase()
+            res = self.gql.graphql_sync(self.schema, "{ named { __typename name } }")
+            ctx.notes["tag:compared"] = True
+            if res.errors:
+                return Failure("query-errors", witness=v, extra={"errors": [str(e) for e in res.errors]})
+            exp = {"__typename": which, "name": v.name}
+            if res.data["named"] != exp:
+                return Failure("interface-typename-differs", witness=v, extra={"data": res.data["named"], "expected": exp})
+            return None
         v = ns["Cat"](self.i32(ctx, "m")) if ctx.flag("cat") else ns["Dog"](None if ctx.flag("none") else ctx.str("w", 1))
         as_list = ctx.flag("list")
         ns["CUR"][0] = v
